@@ -72,12 +72,14 @@ CHECKS = {
         "exhaustive_key": "exhaustive_dictionary_inputs",
         "exhaustive_note": "shard 0 enumerates every prefix of the repository's templates and every ordered pair of the ~200-fragment tag dictionary at file, template and nested-block level (closed and unclosed) and all pairs (thorough: triples) of the expression token dictionary",
         "rule": "byte strings from six families: prefixes of repository and generated templates, tag-dictionary sequences at three nesting levels, "
-                "token deletions/duplications/swaps/replacements of valid files, random bytes incl. invalid UTF-8, expression-token sequences; "
-                "non-trivial = the input is rejected and contains a tag opener (files) / is rejected (expressions)",
-        "technique": "property-based testing and fuzzing (rapid + exhaustive dictionary sweep + go native fuzz): returns tree xor error, no panic, deterministic step bound, watchdog-confirmed non-return",
+                "token deletions/duplications/swaps/replacements of valid files, random bytes incl. invalid UTF-8, expression-token sequences, "
+                "tags with quoted attributes x hostile attribute values; every input is parsed twice (same tree or same error); plus stretch families "
+                "pre + unit x k + close x k + post parsed at k and 8k (64 listed, 3 % random); "
+                "non-trivial = the input is rejected and contains a tag opener (files) / is rejected (expressions) / is a stretch family",
+        "technique": "property-based testing and fuzzing (rapid + exhaustive dictionary sweep + go native fuzz): returns tree xor error, no panic, deterministic step bound, time ratio under eightfold growth, watchdog-confirmed non-return, history replay for failures that need an earlier parse",
         "level_text": PBT + "each input must return exactly one of tree/error without panic within a linear step bound; a non-return is confirmed in a fresh process",
         "level_note": "step bound 12 steps/byte + 400 calibrated on the corpus (observed max 3/byte); scanner-goroutine crashes are attributed through the 'current case' file and confirmed by replay",
-        "assumptions": ["time proportional to the input is read as a linear bound on scanner+parser steps (hook, build tag verif)"],
+        "assumptions": ["time proportional to the input is read as a linear bound on scanner+parser steps (hook, build tag verif) and, for work outside those loops, as: eightfold input takes at most twentyfold time (judged only above 0.2 s, on three consecutive measurements)"],
     },
     "C06": {
         "test": "TestC06", "level": "exploration", "crashy": True,
